@@ -134,7 +134,8 @@ def plan(tier, seed):
     #     unpacking side did not remove: always part of the lattice
     REAR0 = ["none", "socks5", "direct"]
     rear_addrs = [addr("v4", 0, 53), addr("v6", 0, 53), addr("dom", 255, 53)]
-    add("edge", ["up"], REAR0, SSC, [(1280, 1500, 0), (1500, 9000, 0)], [rnd.choice(FAMS)] if not big else FAMS, rear_addrs,
+    # (uplink: the receive window is sized for IPv4, only a datagram that fills it pushes the tag into the rear)
+    add("edge", ["up"], REAR0, SSC, [(1280, 1500, 0), (1500, 9000, 0)], [rnd.choice([("v4", "v4"), ("v4", "v6")])] if not big else FAMS, rear_addrs,
         [("none", "none"), ("all", "all")], ["adv"], [False])
     add("edge", ["down"], SSP, REAR0, [(1500, 1280, 0), (9000, 1500, 0)], [rnd.choice(FAMS)] if not big else FAMS, rear_addrs,
         [("none", "none"), ("all", "all")], ["adv"], [False])
@@ -315,13 +316,23 @@ def run(tier, seed, replay):
         if not sts:
             raise vlib.Broken("TLC violates %s but left no trace:\n%s" % (r.violation, r.out[-2000:]))
         last = sts[-1]
-        # the model's journey of that case to its end (the invariant may fail before the last stage)
-        case = one_case(tier, consts, last["c"])
-        case["gen"] = prm["gen"]
-        tot, nv = replay_cases(v, binary, [case], seed, prm, "design counterexample (%s)" % r.violation, 120)
+        # the model's journey of that case to its end (the invariant may fail before the last stage).  The code pads
+        # by a random amount where the model chose the smallest: the case is replayed repeatedly, and so are its
+        # variants without padding (there the code's layout is determined)
+        variants = [dict(last["c"])]
+        for pols in (("none", last["c"]["rpol"]), ("none", "none")):
+            c2 = dict(last["c"], opol=pols[0], rpol=pols[1])
+            if c2 not in variants:
+                variants.append(c2)
+        todo = []
+        for c2 in variants:
+            case = one_case(tier, consts, c2)
+            case["gen"] = prm["gen"]
+            todo += [case] * (25 if case["o"]["sp"] or case["r"]["sp"] else 1)
+        tot, nv = replay_cases(v, binary, todo, seed, prm, "design counterexample (%s)" % r.violation, 300)
         if nv == 0:
             raise vlib.Broken("TLC violates %s with the code's constants but the real codecs do not reproduce it on that case: %s"
-                              % (r.violation, json.dumps(case["c"])))
+                              % (r.violation, json.dumps(last["c"])))
         v.coverage.update(evaluations=tot["behaviours"], distinct_nontrivial=max(2, tot["distinct"]), rule="counterexample of the design replayed")
         return v.finish()
     cases = parse_cases(r.out)
